@@ -52,6 +52,13 @@ def run(rep: vlib.Reporter, tier: str, seed: int) -> None:
         "Arrow Flight is treated as a reliable key-value store"]
     big = tier == "thorough"
     from harness import daggen
+    # MULTIPROCESSING witness "a step result taken and put back during a drop-acknowledgement wait that then times out" (three
+    # unordered steps on one worker, 2 s and 7 s long): observed in its own interpreter while the rest of the check runs; the run
+    # must end with the tables of the SYNC run and its history must be a trace of Model/Worker.v (Worker_requeued_survive_timeout)
+    from harness import worker_proto
+    pr_w = vlib.build_props("Worker")
+    rep.proof(pr_w)
+    requeue_procs = worker_proto.spawn_requeue_case("C06")
     specs, gstats = gen_specs(rng, 250 if big else 30)
     # siblings on one framework with slow calculations: result collection overlaps later uploads in MULTIPROCESSING
     specs += [daggen.gen_siblings(rng) for _ in range(30 if big else 5)]
@@ -169,6 +176,13 @@ def run(rep: vlib.Reporter, tier: str, seed: int) -> None:
     dist["flight_store_atomicity"] = {"problems": len(fa), **getattr(flight_atomic.check, "stats", {})}
     n_eval += getattr(flight_atomic.check, "stats", {}).get("gets", 0)
     stop_flight_server()
+    rq_probs, rq_case = worker_proto.requeue_case_result(requeue_procs, "C06")
+    for p_ in rq_probs:
+        rep.finding(f"requeue-timeout:{p_[:100]}", "MULTIPROCESSING, three unordered steps on one worker (a result put back during a drop-"
+                    "acknowledgement wait that times out): " + p_, rq_case)
+        found = True
+    dist["requeue_timeout_witness"] = {"problems": len(rq_probs), "exercised": rq_case.get("exercised")}
+    n_eval += 1
     for k in bad_gated[:5]:
         i, j = gated_idx[k]
         rep.finding(f"gated-model:{json.dumps(recs[i]['spec'], sort_keys=True)}:{j}",
@@ -192,6 +206,9 @@ def run(rep: vlib.Reporter, tier: str, seed: int) -> None:
 def replay(path: str) -> int:
     from harness import c01
     r = json.load(open(path))["replay"]
+    if r.get("kind") == "worker_proto":
+        from harness import worker_proto
+        return worker_proto.replay_main(r, "C06")
     if r.get("kind") == "flight-atomic":
         from harness import flight_atomic
         print(flight_atomic.check(20))
